@@ -50,11 +50,14 @@ def run(ctx: Context, col) -> None:
         tag = "shuffle" if shuffle else "fixed order"
         f = analyse_recurrence(sw)
         ok1 = bool(f.get("ok_single_recurrence") and f.get("only_values_evolve") and f.get("scatter_shape")
-                   and f.get("index_ok") and f.get("new_ok") and f.get("keep_ok"))
+                   and f.get("index_ok") and f.get("new_ok") and f.get("keep_ok") and f.get("mask_ok"))
         why = "values are the only evolving carry; batch = Bellman(carried values); carry' = scatter at state_to_index(rows)"
         if not ok1:
             if not f.get("ok_single_recurrence"):
                 why = "the scan carry is returned unchanged: later batches do not see updated values (degenerates to Jacobi). " + f["details"].get("why", "")
+            elif f.get("mask_ok") is False and f.get("new_ok") and f.get("keep_ok"):
+                why = ("the scatter is not masked by (flat slot index >= n_states): real states may be skipped or padded rows written, so a sweep "
+                       "does not update every state exactly once - " + f["details"].get("mask", "")[:160])
             elif f.get("new_ok") is False:
                 why = "the batch's new values are not the Bellman backup of the CARRIED values (computed from the previous sweep's values?)"
             else:
